@@ -126,6 +126,7 @@ static void post_state(uint64_t k[2], int with_users)
 /* ---------------------------------------------------------------- shape tables */
 typedef struct shape { unsigned char d[4700]; int len; unsigned char tail[4700]; int taillen; int from; char desc[100]; } shape;
 static shape *SH; static int nsh, shcap;
+static int cur_prestate;
 static void add_shape(const unsigned char *d, int len, const unsigned char *tail, int taillen, int from, const char *fmt, ...)
 {
 	if (nsh == shcap) { shcap = shcap ? shcap * 2 : 4096; SH = realloc(SH, sizeof *SH * shcap); }
@@ -302,6 +303,7 @@ static void srv_shapes(int prestate)
 {
 	unsigned char pkt[800]; int n;
 	nsh = 0;
+	cur_prestate = prestate;
 	int step = thorough ? 1 : 3;
 	{ char s[] = "zabcAbC09-xyzzy"; n = tm_query(pkt, sizeof pkt, 0x901, 10, s, (int)strlen(s), DOM, 0); shapes_from_seed(pkt, n, 2, "echo request (z)", step); }
 	n = tm_version(pkt, 0x902, 10, 0x00000502, 0x99, DOM); shapes_from_seed(pkt, n, 2, "version request", step);
@@ -325,6 +327,12 @@ static void srv_shapes(int prestate)
 			l = tm_ippkt(ip, 40, 0x0A000002, 0x0A000003, 7); zl = tm_compress(ip, l, z, sizeof z);
 			n = tm_raw(pkt, 0x20, 0, z, zl); shapes_from_seed(pkt, n, 0, "raw data for the other session", 1);
 			n = tm_raw(pkt, 0x20, 1, z, zl); shapes_from_seed(pkt, n, 0, "raw data naming the other session's user id", 2);
+			/* inner IPv4 header whose total-length field claims 400 / 65535 bytes while 40 are there */
+			for (int claim = 0; claim < 2; claim++) {
+				l = tm_ippkt(ip, 40, 0x0A000002, 0xC0A80101u, 8 + claim); ip[4 + 2] = claim ? 0xff : 400 >> 8; ip[4 + 3] = claim ? 0xff : 400 & 0xff;
+				zl = tm_compress(ip, l, z, sizeof z);
+				n = tm_raw(pkt, 0x20, 0, z, zl); add_shape(pkt, n, NULL, 0, 0, "raw data whose inner length field claims %d bytes (40 present)", claim ? 65535 : 400);
+			}
 		}
 		pointer_shapes(0x90a, 0, 0, 10);
 	}
@@ -336,10 +344,13 @@ static void srv_shapes(int prestate)
 /* histories (server side): what an earlier datagram of somebody else left behind in the decoder's own variables is residue
  * just like the bytes behind the datagram in the receive buffer.  The earlier datagram is a stateless echo request ('z'), so
  * the state before the datagram under test is the same with and without it. */
-#define NHIST 5
+#define NHIST 6
 static const char *HISTN[NHIST] = { "after-an-echo-request-of-a-third-party", "after-another-echo-request-(TXT)", "after-a-maximum-length-echo-request",
 	/* ... and two that the server decodes and then drops without an answer (record type AAAA): nothing it calls afterwards scrubs the stack */
-	"after-an-unanswered-AAAA-query-for-an-echo-name", "after-an-unanswered-AAAA-query-for-a-version-request-name" };
+	"after-an-unanswered-AAAA-query-for-an-echo-name", "after-an-unanswered-AAAA-query-for-a-version-request-name",
+	/* ... and a longer upstream packet of the *other* session (raw mode pre-state): its plaintext stays in the server's inflate buffer.
+	 * A later packet whose inner length field claims more than it carries must not be completed from it (seeded C12-i) */
+	"after-a-longer-raw-data-frame-of-the-other-session" };
 static void srv_deliver(const struct sockaddr_storage *src, const unsigned char *d, int len);
 static void deliver_history(int h)
 {
@@ -351,6 +362,18 @@ static void deliver_history(int h)
 	else if (h == 1) l = snprintf(nm, sizeof nm, "Zanother-history-ABCDEFGH");
 	else { nm[0] = 'z'; for (l = 1; l < 200; l++) nm[l] = "abcdefghijklmnopqrstuvwxyz012345"[(l * 7) & 31]; }
 	if (h == 3) l = snprintf(nm, sizeof nm, "zwhat-the-third-party-asked-before");
+	if (h == 5) {
+		if (cur_prestate != 3) h = 0;            /* no raw-mode session to send it: an echo request instead */
+		else {
+			static unsigned char ip[400], z[500];
+			int ln = tm_ippkt(ip, 300, 0x0A000003, 0xC0A80101u, 99), zl = tm_compress(ip, ln, z, sizeof z);
+			n = tm_raw(pkt, 0x20, 1, z, zl);
+			if (n < 0) vw_fatal("history datagram");
+			srv_deliver(&B_ADDR, pkt, n);
+			return;
+		}
+		l = snprintf(nm, sizeof nm, "zqrs-private-words-of-a-third-party-0123456789");
+	}
 	if (h == 4) { n = tm_version(pkt, 0x7704, 28, 0x00000502, 0x4141, DOM); if (n < 0) vw_fatal("history datagram"); srv_deliver(&y, pkt, n); return; }
 	n = tm_query(pkt, sizeof pkt, 0x7700 + h, h == 1 ? 16 : h == 3 ? 28 : 10, nm, l, DOM, 0);
 	if (n < 0) vw_fatal("history datagram %d cannot be built", h);
